@@ -2,6 +2,7 @@
 package main
 
 import (
+	"github.com/mr-tron/base58"
 	"encoding/json"
 	"fmt"
 	"math/big"
@@ -102,9 +103,18 @@ func main() {
 }
 
 // argument shapes
+func mh(code byte, n int) string {
+	b := append([]byte{code, byte(n)}, make([]byte, n)...)
+	for i := range b[2:] {
+		b[2+i] = byte(i*7 + 1)
+	}
+	return base58.Encode(b)
+}
+
 func argShapes(r *rand.Rand, bps []string, addr string) [][]interface{} {
 	big1 := strings.Repeat("9", 400)
 	return [][]interface{}{
+		{mh(0x00, 64)}, {mh(0x00, 70), bps[0]}, {mh(0x00, 1)}, {mh(0x12, 32)}, {bps[0], mh(0x00, 64)}, {mh(0x00, 37)}, {mh(0x00, 120)},
 		nil, {}, {nil}, {1}, {true}, {map[string]interface{}{"a": 1}}, {[]interface{}{1, 2}}, {""}, {"x"},
 		{addr}, {addr, addr}, {addr, 1}, {addr, nil}, {1, addr}, {nil, nil}, {"name12345678"}, {"name12345678", addr}, {"name12345678", 1}, {"name12345678", nil},
 		{"name12345678", "notanaddress"}, {"name12345678", addr, addr}, {"toolongname_______"}, {"short"}, {"name1234567\xff"},
@@ -266,6 +276,19 @@ func run(c *vf.Ctx, name string, public bool, ver int, part int) {
 			sp := rig.TxSpec{Type: tt, To: to, Amount: new(big.Int).SetBytes(amt), Payload: pl, GasPrice: gp, GasLimit: []uint64{0, 1, 1 << 62}[r.Intn(3)]}
 			inputs = append(inputs, gen{fmt.Sprintf("type=%d to-len=%d amount-len=%d payload-len=%d", tt, len(to), len(amt), len(pl)), sp, sNames[r.Intn(len(sNames))]})
 		}
+	}
+	// DEPLOY / REDEPLOY payload framings: 4-byte little-endian head length followed by code and args
+	for hl := 0; hl <= 8; hl++ {
+		for _, body := range [][]byte{nil, {1}, []byte("function f() end abi.register(f)"), make([]byte, 40)} {
+			pl := append([]byte{byte(hl), 0, 0, 0}, body...)
+			for _, tt := range []types.TxType{types.TxType_DEPLOY, types.TxType_NORMAL} {
+				inputs = append(inputs, gen{fmt.Sprintf("deploy head-len=%d body-len=%d type=%d", hl, len(body), tt), rig.TxSpec{Type: tt, Amount: big.NewInt(0), Payload: pl, GasPrice: gp}, "rich"})
+			}
+		}
+	}
+	for _, hl := range []uint32{0xffffffff, 0x80000000, 1 << 20} {
+		pl := []byte{byte(hl), byte(hl >> 8), byte(hl >> 16), byte(hl >> 24), 1, 2, 3}
+		inputs = append(inputs, gen{fmt.Sprintf("deploy head-len=%d", hl), rig.TxSpec{Type: types.TxType_DEPLOY, Amount: big.NewInt(0), Payload: pl, GasPrice: gp}, "rich"})
 	}
 	// account field lengths (unsigned / signed by rich)
 	for _, l := range lens {
